@@ -1120,3 +1120,40 @@ func checkErrorAborts(c *km.Ctx, rule string, fn *ssa.Function, callee string, e
 	}
 	return n
 }
+
+// loopLeftEarly: some range loop of fn can be left before its range is exhausted without reporting an error - by a
+// break (the loop's exit block has a predecessor other than the loop header) or by a return of a nil error from
+// inside the loop. Returns a description of the first such exit ("" when there is none).
+func loopLeftEarly(c *km.Ctx, fn *ssa.Function) string {
+	res := fn.Signature.Results()
+	hasErr := res.Len() > 0 && isErrorType(res.At(res.Len()-1).Type())
+	for _, b := range fn.Blocks {
+		if b.Comment != "rangeindex.loop" && b.Comment != "rangeiter.loop" && b.Comment != "rangechan.loop" {
+			continue
+		}
+		iff, ok := b.Instrs[len(b.Instrs)-1].(*ssa.If)
+		if !ok || len(b.Succs) != 2 {
+			continue
+		}
+		_ = iff
+		body, done := b.Succs[0], b.Succs[1]
+		for _, p := range done.Preds {
+			if p != b {
+				return "the loop at " + posOf(c, b.Instrs[len(b.Instrs)-1]) + " is left by a break from " + posOf(c, p.Instrs[len(p.Instrs)-1])
+			}
+		}
+		// returns inside the loop body: blocks reachable from the body without passing the header
+		inLoop := km.ReachableBlocks(body, map[*ssa.BasicBlock]bool{b: true, done: true})
+		for blk := range inLoop {
+			ret, isRet := blk.Instrs[len(blk.Instrs)-1].(*ssa.Return)
+			if !isRet {
+				continue
+			}
+			rv := km.ReturnValues(ret)
+			if !hasErr || len(rv) == 0 || km.IsNilConst(rv[len(rv)-1]) {
+				return "a return without an error inside the loop at " + posOf(c, ret)
+			}
+		}
+	}
+	return ""
+}
